@@ -274,6 +274,13 @@ class TimeCachingAdapter(Adapter, NoBranchAdapter, ABC):
             else:
                 self._total_mem -= d[1].nbytes
 
+    def _unpack(self, where):
+        if isinstance(where, str):
+            # buffered data is in the units of the adapter's source
+            data = np.load(where, allow_pickle=True)
+            return dtools.UNITS.Quantity(data, self._input_info.units)
+        return where
+
     @abstractmethod
     def _interpolate(self, time):
         """Interpolate for the given time"""
